@@ -866,6 +866,35 @@ fn histories_for(ctx: &Ctx, o: &Opts, prop: &str, quick: bool) -> Vec<History> {
                 let seed = derive(o.seed, "C19", i as u64);
                 hs.push(gen::c19_random(ctx, &pool, &mut Rng::new(seed), seed));
             }
+            // every order of magnitude: 10^k (times a factor near one, some with a unit or a sign) for
+            // every k up to 25 000 in the thorough tier, 40 to 200 to an invocation, and a seeded sample of
+            // 40 above that (the tool needs 0.1 s for 1e21000 and 0.8 s for 1e60000: the cost grows
+            // with the square of k); a seeded sample of 100 up to 25 000 in quick
+            if o.runs.is_none() {
+                let mut r = Rng::new(derive(o.seed, "C19-magnitudes", 0));
+                if quick {
+                    for part in 0..2 {
+                        let ks: Vec<usize> = (0..50).map(|_| r.range(13, 25_000)).collect();
+                        hs.push(gen::c19_magnitudes(ctx, &ks, derive(o.seed, "C19-magnitudes", 1 + part)));
+                    }
+                } else {
+                    // (the larger the values the fewer to an invocation: no history takes more than a few
+                    // seconds of processor time)
+                    let mut k = 1usize;
+                    let mut part = 0u64;
+                    while k <= 25_000 {
+                        let n = if k < 5_000 { 200 } else if k < 12_000 { 80 } else { 40 };
+                        let ks: Vec<usize> = (k..(k + n).min(25_001)).collect();
+                        k += n;
+                        part += 1;
+                        hs.push(gen::c19_magnitudes(ctx, &ks, derive(o.seed, "C19-magnitudes", part)));
+                    }
+                    for part in 0..4 {
+                        let ks: Vec<usize> = (0..10).map(|_| r.range(25_000, 66_000)).collect();
+                        hs.push(gen::c19_magnitudes(ctx, &ks, derive(o.seed, "C19-magnitudes", 1000 + part)));
+                    }
+                }
+            }
         }
         _ => {}
     }
@@ -1363,8 +1392,6 @@ fn cmd_run(o: &Opts) -> i32 {
             "C19" | "C16" => 200,
             _ => 150,
         };
-        // a hang costs two watchdog periods per execution: it is reported as found, not minimised
-        let budget = if f.violation.clause.ends_with(".hangs") { 0 } else { budget };
         let sh = shrink(&ctx, &f.history, &f.violation, budget, &ctx.scratch.join("shrink"), 0);
         let path = write_replay(
             o,
